@@ -143,6 +143,11 @@ def check_case(ctx, cs):
                  ("linalg.vector_dot", lambda: linalg.vector_dot([1.0, 2.0, 3.0], [-2.0, 0.0, 5.0]), float(fr(o["dot"]))),
                  ("linalg.vector_magnitude", lambda: linalg.vector_magnitude([3.0, 4.0, 12.0]), math.sqrt(float(fr(o["norm2"])))),
                  ("linalg.point_distance", lambda: linalg.point_distance([1.0, 1.0, 1.0], [4.0, 5.0, 13.0]), math.sqrt(float(fr(o["norm2"]))))]
+        tests += [("linalg.matrix_transpose", lambda: [list(r) for r in linalg.matrix_transpose(((1.0, 2.0, 3.0), (4.0, 5.0, 6.0)))], [[1.0, 4.0], [2.0, 5.0], [3.0, 6.0]]),
+                  ("linalg.matrix_transpose", lambda: [list(r) for r in linalg.matrix_transpose([(1, 2), (3, 4), (5, 6)])], [[1.0, 3.0, 5.0], [2.0, 4.0, 6.0]]),
+                  ("linalg.matrix_multiply", lambda: linalg.matrix_multiply(((1, 2, 3), (4, 5, 6)), ((1, 0), (2, -1), (0, 3))), [[float(x) for x in r] for r in o["matmul"]]),
+                  ("linalg.vector_cross", lambda: list(linalg.vector_cross((1, 2, 3), (-2, 0, 5))), fl(frv(o["cross"]))),
+                  ("linalg.vector_dot", lambda: linalg.vector_dot((1, 2, 3), (-2, 0, 5)), float(fr(o["dot"])))]
         for site, fn, e in tests:
             ok, r = _try(ctx, site, tg, {}, fn)
             if ok and not close_seq(r, e):
